@@ -101,7 +101,15 @@ func concretise(draws []interp.Draw, model map[string]string) ([]map[string]inte
 							k = int(mv.I)
 						}
 					}
-					sb.WriteRune(interp.RuneWitness(k))
+					// a model value for the code point is used when it lies in the chosen class
+					// (ASCII code points are tied to their class); otherwise the class witness
+					w := interp.RuneWitness(k)
+					if raw, ok := model[rt]; ok {
+						if mv, err := interp.ParseModelValue(raw); err == nil && interp.RuneClassOf(rune(uint32(mv.U))) == k {
+							w = rune(uint32(mv.U))
+						}
+					}
+					sb.WriteRune(w)
 				}
 			}
 			e["str"] = sb.String()
